@@ -256,11 +256,16 @@ impl SlabRouter {
 
         match Self::classify_key(key) {
             KeyClass::Embedding => {
-                if let Some(entity_id) = self.index.get(key) {
+                let entity = self.index.get(key);
+                if let Some(entity_id) = entity {
                     self.embeddings.delete(entity_id);
                 }
                 self.index.remove(key);
-                self.metadata.delete(key);
+                // The removal itself decides the answer: of two racing deletes only one
+                // finds something to remove.
+                if self.metadata.delete(key).is_none() && entity.is_none() {
+                    return Err(SlabRouterError::NotFound(key.to_string()));
+                }
                 Ok(())
             },
             KeyClass::Cache => {
@@ -268,7 +273,9 @@ impl SlabRouter {
                 Ok(())
             },
             _ => {
-                self.metadata.delete(key);
+                if self.metadata.delete(key).is_none() {
+                    return Err(SlabRouterError::NotFound(key.to_string()));
+                }
                 Ok(())
             },
         }
@@ -497,6 +504,10 @@ impl SlabRouter {
                 data: value.clone(),
             })
             .map_err(|e| SlabRouterError::WalError(format!("Failed to log put: {e}")))?;
+
+            // Apply while the WAL lock is still held, so that the order in which writes
+            // become durable is the order in which they take effect in memory.
+            return self.put(key, value);
         }
 
         // Apply to in-memory state
@@ -539,6 +550,9 @@ impl SlabRouter {
                 key: key.to_string(),
             })
             .map_err(|e| SlabRouterError::WalError(format!("Failed to log delete: {e}")))?;
+
+            // Apply while the WAL lock is still held (durable order = memory order).
+            return self.delete(key);
         }
 
         // Apply to in-memory state
